@@ -655,6 +655,13 @@ def _run_equal_listeners(case, out):
 
         def notify(self, event):
             got.append(self.name)
+
+    if sum(case["ops"]) % 2:
+        # (a class that defines equality and nothing else - a plain @dataclass - is not hashable; subscribing never
+        # asked for hashable listeners)
+        class V(V):                                               # noqa: F811
+            __hash__ = None
+        out.label("equal-listeners-unhashable")
     objs = {"a": V("a", 7), "b": V("b", 7)}
     models = {"equality": ([[], []], lambda x, y: True), "identity": ([[], []], lambda x, y: x == y)}
     alive = set(models)
